@@ -72,8 +72,8 @@ theorem absCore_replicate (n : Nat) :
 /-! ## 1. `NewSimulator` -/
 
 theorem new_rel {c : Config} {s : Sim} (h : Sim.new c = some s) :
-    Rel s (Api.new c.coreSize.toNat c.readLimit.toNat c.writeLimit.toNat c.processes.toNat
-      c.cycles.toNat) := by
+    Rel s (Api.new c.coreSize.toNat (clampLimit c.readLimit c.coreSize).toNat
+      (clampLimit c.writeLimit c.coreSize).toNat c.processes.toNat c.cycles.toNat) := by
   unfold Sim.new at h
   split at h
   · simp only [Option.some.injEq] at h
@@ -84,9 +84,8 @@ theorem new_rel {c : Config} {s : Sim} (h : Sim.new c = some s) :
       simp at hi
   · cases h
 
-theorem new_dataRel {c : Config} {s : Sim} (h : Sim.new c = some s) :
-    DataRel s (Api.new c.coreSize.toNat c.readLimit.toNat c.writeLimit.toNat c.processes.toNat
-      c.cycles.toNat) ∧ StartsOK s := by
+theorem new_dataRel {c : Config} {s : Sim} (h : Sim.new c = some s) (r w : Nat) :
+    DataRel s (Api.new c.coreSize.toNat r w c.processes.toNat c.cycles.toNat) ∧ StartsOK s := by
   unfold Sim.new at h
   split at h
   · simp only [Option.some.injEq] at h
@@ -615,8 +614,9 @@ theorem new_inv {c : Config} {s : Sim} (h : Sim.new c = some s)
     ApiInv s (Api.new c.coreSize.toNat c.readLimit.toNat c.writeLimit.toNat c.processes.toNat
       c.cycles.toNat) ∧ s.m = c.coreSize := by
   obtain ⟨hwf, hco, hmc⟩ := new_spec h
-  obtain ⟨hd, hs⟩ := new_dataRel h
+  obtain ⟨hd, hs⟩ := new_dataRel h c.readLimit.toNat c.writeLimit.toNat
   have hr := new_rel h
+  rw [clampLimit_of_le _ _ hrl, clampLimit_of_le _ _ hwl] at hr
   refine ⟨⟨hwf, hco, hs, hr, hd, by rw [hmc]; exact hm, ?_, ?_⟩, hmc⟩
   · rw [hmc, ← hr.R]; exact hrl
   · rw [hmc, ← hr.W]; exact hwl
